@@ -359,6 +359,7 @@ func (o *Oracle) finishGroups() {
 		return
 	}
 	last := map[string]*Exchange{}
+	restarted := false
 	epochs := append([]int{}, o.groupEpochs...)
 	for _, x := range o.w.Log.Ended(0, L3) {
 		g, _, ok := groupOfPath(x.Path, "members")
@@ -368,10 +369,15 @@ func (o *Oracle) finishGroups() {
 		for len(epochs) > 0 && x.Seq >= epochs[0] {
 			last = map[string]*Exchange{}
 			epochs = epochs[1:]
+			restarted = true
 		}
 		if p := last[g]; p != nil {
-			o.res.cover("C17.A3|world|consecutive-list-fetches")
-			if x.At < p.Done {
+			o.res.cover(fmt.Sprintf("C17.A3|world|consecutive-list-fetches|after-restart=%v", restarted))
+			if restarted {
+				// goroutines of a crashed process cannot be killed inside one OS process: a handler that was asleep when the
+				// authenticator "died" may still start one fetch afterwards, on the shared wire. After a restart the wire no
+				// longer tells one loop from two; the facet is judged in worlds (and stretches) without a restart
+			} else if x.At < p.Done {
 				o.violate(x, "C17.A3-single-fill-single-loop", fmt.Sprintf("two member-list fetches for %s overlap on the wire [#%d, #%d]", g, p.Seq, x.Seq), "path", "world", "facet", "overlap")
 			} else if gap := x.At - p.At; gap < o.w.Cfg.RefreshTTL-time.Second {
 				o.violate(x, "C17.A3-single-fill-single-loop", fmt.Sprintf("member-list fetches for %s only %v apart (refresh period %v): more than one loop is refreshing it [#%d, #%d]", g, gap, o.w.Cfg.RefreshTTL, p.Seq, x.Seq), "path", "world", "facet", "two-loops")
